@@ -107,8 +107,10 @@ class QV(Abstract):
         return hash(repr(self.term))
 
     def _bin(self, op: str, o: Any, swap: bool = False, ints_only: bool = False) -> Any:
-        if isinstance(o, bool) or not isinstance(o, (QV, int)) and type(o).__name__ != "Fraction":
+        if isinstance(o, bool) or not isinstance(o, (QV, int, float)) and type(o).__name__ != "Fraction":
             return NotImplemented
+        if isinstance(o, float) and o == int(o):
+            o = int(o)  # Fraction ** x goes through float(a) when x is not a Rational number: the same number
         oi = o.integer if isinstance(o, QV) else (getattr(o, "denominator", 1) == 1)
         if ints_only and not (self.integer and oi):
             raise TypeError("unsupported operand type(s) for %s: 'Fraction' and 'Fraction'" % op)
@@ -172,6 +174,15 @@ class QV(Abstract):
 
     def __and__(self, o: Any) -> Any:
         return self._bin("and", o, ints_only=True)
+
+    def __ror__(self, o: Any) -> Any:
+        return self._bin("or", o, True, ints_only=True)
+
+    def __rxor__(self, o: Any) -> Any:
+        return self._bin("xor", o, True, ints_only=True)
+
+    def __rand__(self, o: Any) -> Any:
+        return self._bin("and", o, True, ints_only=True)
 
     def __neg__(self) -> "QV":
         return QV(("neg", self.term), self.integer)
